@@ -256,3 +256,54 @@ func valueLeaves(v ssa.Value, rs *core.Resolver, depth int) []leaf {
 	}
 	return []leaf{{v, rs}}
 }
+
+// ctxEdges lists the If edges under which `in` executes in an execution of
+// F: those dominating it in its own function plus, when it lives in a private
+// helper of F, those of every call site through which it is reached.
+func ctxEdges(p *core.Prog, in ssa.Instruction, F *ssa.Function, depth int) []edgeCond {
+	out := dominatingEdges(in)
+	fn := in.Parent()
+	if fn == F || fn.Parent() != nil || depth > 4 {
+		return out
+	}
+	for _, c := range p.CallersOf(fn) {
+		if p.Within(c.Parent(), F) {
+			out = append(out, ctxEdges(p, c, F, depth+1)...)
+		}
+	}
+	return out
+}
+
+// paramArgs: for a parameter of a private helper, the argument values at its
+// call sites (resolved recursively); any other value is returned as it is.
+func paramArgs(p *core.Prog, v ssa.Value, depth int) []ssa.Value {
+	prm, ok := v.(*ssa.Parameter)
+	if !ok || depth > 4 || !p.IsPrivateHelper(prm.Parent()) {
+		return []ssa.Value{v}
+	}
+	idx := -1
+	for i, q := range prm.Parent().Params {
+		if q == prm {
+			idx = i
+		}
+	}
+	var out []ssa.Value
+	for _, c := range p.CallersOf(prm.Parent()) {
+		if idx >= 0 && idx < len(c.Common().Args) {
+			out = append(out, paramArgs(p, c.Common().Args[idx], depth+1)...)
+		}
+	}
+	if len(out) == 0 {
+		return []ssa.Value{v}
+	}
+	return out
+}
+
+// helperCalls lists the call instructions of F and of the private helpers it calls.
+func helperCalls(p *core.Prog, F *ssa.Function) []ssa.CallInstruction {
+	var out []ssa.CallInstruction
+	for _, f2 := range p.Helpers(F) {
+		out = append(out, core.Calls(f2)...)
+	}
+	return out
+}
